@@ -346,7 +346,7 @@ func (s *Session) Exec(line string) (obs string, viol string) {
 			if found && err == nil {
 				got = s.Cfg.ValNat(v)
 			}
-		case "ptr":
+		case "ptr", "np":
 			var v *uint64
 			found, err = m.Get(s.ctx, s.Cfg.Key(k), &v)
 			if found && err == nil {
